@@ -18,6 +18,26 @@ CLAIMS = {
     note=COMMON_NOTE + 'Full strength for the model; object aliasing in the Python code is not expressible in the model and is covered by the snapshots only.',
     technique='Lean 4 proof: invariant relation (Step) by weakest-precondition tactic over the whole model + differential correspondence',
     ref='7 C04'),
+ 'C05': dict(
+    text='Proved for the model: with reset=True or "true" the whole result of a render call (html or exception, messages, final state) is the same '
+         'from any two sessions that agree on lists.ids, spans.savedReplacements and the log, in particular the same as in a fresh process; '
+         'spans.render is shown not to read the leftover placeholder queue. The correspondence check runs histories that customise every kind of '
+         'definition, allocate ids, leave attributes pending and end inside unterminated blocks, then compares the reset render with the same call on '
+         'import-time state and (for a sample) in a fresh interpreter, on implementation and model.',
+    note=COMMON_NOTE + 'Partial in one respect, named in the theorem: independence from the two scratch registers that document.init does not reset '
+         '(lists.ids, spans.savedReplacements) is proved for spans.render only and otherwise observed by the correspondence check. The model has no object '
+         'aliasing: a default definition object mutated in place can only be seen by the fresh-interpreter comparison.',
+    technique='Lean 4 proof: reset prefix computes a constant state (equational) + differential correspondence against a fresh interpreter',
+    ref='7 C05'),
+ 'C20': dict(
+    text='Proved for the model: setOption rejects a non-integer or out-of-range safeMode with exactly one diagnostic and an unchanged state, accepts a legal '
+         'one; the safe mode of every session reachable from a fresh process by any history of render calls is -1 (before first use) or in 0..15 (induction '
+         'over histories, using the Step relation for documents); options not given keep their value; reset restores the defaults before the other options; '
+         'option elements in a document rendered at a non-zero safe mode change neither safe mode nor replacement text. The correspondence check compares '
+         'option state after every step of 1-4 call sequences with a reference state machine written from the statement, and with the model.',
+    note=COMMON_NOTE + 'Full strength for the model. Python values passed as options are modelled by the PyVal type (None, bool, int, float repr, str).',
+    technique='Lean 4 proof: option state machine (equational) + invariant over reachable sessions + differential correspondence',
+    ref='7 C20'),
 }
 
 def main():
